@@ -334,6 +334,11 @@ class Waiting(State):
         self._waiting_future = futures.Future()
 
     def interrupt(self, reason: Any) -> None:
+        if self._waiting_future.done():
+            # The wait is already over (resumed, or interrupted before): the step is about to return and the process
+            # will carry out whatever interrupt action is pending at that point
+            return
+
         # This will cause the future in execute() to raise the exception
         self._waiting_future.set_exception(reason)
 
